@@ -3,6 +3,7 @@
 Decided as a codec-agreement + who-may-format property; the for-all-strings read-back is not executed.
 """
 import ast
+import itertools
 
 from ..source import AnalysisError, norm, dotted, const_str, walk_no_nested
 from ..codec import StringSyntax, chain_steps, apply_steps
@@ -277,6 +278,7 @@ def run(ctx):
                 f'{diffs[0][3]} (in a fresh process: {diffs[0][2]}): the encoder keeps state between renderings, so the literal of one target depends on earlier use of another')
                if diffs else '', file=RENDER, line=m.lineno,
                witness=f"SqlalchemyRender('mysql').get_string(...) then SqlalchemyRender('postgres').get_string(Constant({diffs[0][1]!r}))" if diffs else None)
+    check_compile_hooks(ctx, tree)
     # (2) the tree's own printers
     enc, steps, site = C04.encoder_model(ctx)
     g = load_dialect(ctx.src, 'mindsdb')
@@ -605,6 +607,66 @@ def check_text_entry(ctx, cls):
                f'get_string must return the text of get_exec_params(query, with_failback=<as given>, with_params=False); it called {calls and (calls[0][0][1:], calls[0][1])} '
                f'(bound: { {k_: v_ for k_, v_ in (bound or {}).items() if k_ != params[0]} }) and returned {res!r}: rendered WITH parameters the constants of an INSERT are not '
                f'in the text', file=RENDER, line=gs.lineno, witness="SqlalchemyRender('mysql').get_string(Insert(..., values=[[1, 'a']], is_plain=True))")
+
+
+def check_compile_hooks(ctx, tree):
+    """Functions registered with `@compiles(<element class>)` write SQL text themselves.  Each is interpreted (sa/interp.py) on an element whose text attributes
+    carry hostile content, with a compiler stand-in whose render_literal_value marks what it is given: everything that comes from the element must be inside such a
+    literal, except one trailing plain word (a unit keyword); text outside the literals is letters and blanks only, and nothing of the value is lost."""
+    import re as _re
+    from ..interp import Interp, Obj, Raised, Env
+    hooks = []
+    for fn in [n for n in tree.body if isinstance(n, ast.FunctionDef)]:
+        for d in fn.decorator_list:
+            if isinstance(d, ast.Call) and dotted(d.func) in ('compiles', 'sa.ext.compiler.compiles') and d.args and isinstance(d.args[0], ast.Name):
+                hooks.append((fn, d.args[0].id))
+    ctx.setcount('compile_hooks', len(hooks))
+    probes = ['1 day', '3 hour', '1-2 year_month', '1 day 2 hours', '1 day) union select 1 --', "1' day", "1' or '1'='1 day", '1  day', '1 day;', 'a\\b c', "x' y", '5', '']
+    for fn, cname in hooks:
+        cls = next((n for n in tree.body if isinstance(n, ast.ClassDef) and n.name == cname), None)
+        ctx.need(cls is not None, f'element class {cname} of the compile hook {fn.name} not found')
+        init = next((m for m in cls.body if isinstance(m, ast.FunctionDef) and m.name == '__init__'), None)
+        attrs = []
+        if init is not None:
+            params = {a.arg for a in init.args.args[1:]}
+            for x in ast.walk(init):
+                if isinstance(x, ast.Assign) and isinstance(x.value, ast.Name) and x.value.id in params:
+                    for t_ in x.targets:
+                        if isinstance(t_, ast.Attribute) and isinstance(t_.value, ast.Name) and t_.value.id == 'self':
+                            attrs.append(t_.attr)
+        ctx.need(attrs, f'no text attribute of {cname} found for the compile hook {fn.name}')
+        for attr in attrs:
+            for probe, (tname, backslash) in itertools.product(probes, (('postgresql', False), ('mysql', True))):
+                def lit(v, t_=None, backslash=backslash):
+                    # the reference literal of the target (what the renderer's LiteralCompiler is checked to produce, C07.literal-override)
+                    v = str(v).replace("'", "''")
+                    return "'" + (v.replace('\\', '\\\\') if backslash else v) + "'"
+                comp = Obj('Compiler', render_literal_value=lit, dialect=Obj('Dialect', name=tname))
+                it = Interp.for_file(ctx.src, RENDER, {}, {'sa.String': lambda it_, *a, **k: Obj('SaString'), 'String': lambda it_, *a, **k: Obj('SaString')})
+                label = f'{fn.name}:{tname}:{cname}.{attr}={probe!r}'
+                try:
+                    out = it.call_function(fn, [Obj(cname, **{attr: probe}), comp], {}, Env())
+                except Raised as r:
+                    ctx.ob('C07.compile-hook', label, r.exc_name == 'NotImplementedError', f'{label}: the hook raises {r.exc_name}', file=RENDER, line=fn.lineno)
+                    continue
+                ctx.count('compile_hook_rows')
+                ok = False
+                if isinstance(out, str):
+                    m0 = _re.match(r'\s*[A-Za-z_]+\s+', out)          # the keyword the hook writes in front
+                    rest = out[m0.end():] if m0 else out
+                    cands = [(rest, None)]
+                    m1 = _re.search(r' ([A-Za-z_]+)$', rest)
+                    if m1:
+                        cands.append((rest[:m1.start()], m1.group(1)))
+                    for body, word in cands:
+                        v = target_read(body, backslash)
+                        if v is not None and v + (' ' + word if word else '') == probe:
+                            ok = True
+                ctx.ob('C07.compile-hook', label, ok,
+                       f'{fn.name} ({tname}): an element with {attr} = {probe!r} is written as `{out}`: that is not <keyword> <one literal of the target that reads back as the '
+                       f'value> [<one plain word>] - text of the value is read by the target as SQL, or the value read back is another one', file=RENDER, line=fn.lineno,
+                       witness=f"select interval '{probe}' from t")
+    ctx.floor('compile_hooks', 1)
 
 
 def check_number_printer(ctx):
